@@ -5,6 +5,9 @@ import PetgraphModel.Proofs.C15FlowModel
 import PetgraphModel.Proofs.C15W2Hyp
 import PetgraphModel.Proofs.C15W5Main
 import PetgraphModel.Proofs.C15W5BarrierLabels
+import PetgraphModel.Proofs.C15W5Acc
+import PetgraphModel.Proofs.C15W5FlowB
+import PetgraphModel.Proofs.C15W5Canon
 /-
 C15 — `maximum_matching` is maximum, `greedy_matching` valid, `ford_fulkerson` a maximum flow.
 
@@ -21,6 +24,11 @@ Part 4: the maximality clause PROVED for undirected storage with the vacancy hyp
 (`C15_maximum_maximum`, wave 5, `Proofs/C15W5*.lean`), with the ladder it rests on: Berge's theorem,
 failed roots stay failed, the Tutte–Berge bound with a sound certificate checker, completeness of one
 search of Gabow's labelling.
+Part 5: run-time checks of the hypotheses (every hypothesis of the model theorems has an executable form
+that the driver evaluates on every case it judges, with a `_check` theorem), and the soundness of the
+driver's complete matching judge: `judgeAccessors` (sound and complete), the barrier certificate found
+by the untrusted `findBarrierFast`, the definitional maximum by the proved Gabow model on the canonical
+view for graphs of any size, `judgeMaximum`, `judgeMatching`.
 Part 2b (at the end of the file): the Edmonds–Karp mirror model of `Model/C15Flow.lean` returns a
 feasible maximum flow and the capacity of a minimum cut, for all views and non-negative integer
 capacities.
@@ -560,6 +568,334 @@ example : ixOkB blossomView = true ∧ wfB blossomView.g = true ∧ C15W2.viewEx
     (maximumMatching blossomView 1).len = 2 ∧ (maximumMatching blossomView 2).len = 2 ∧
     maxMatchingSize blossomView.g = 2 := by decide +kernel
 
+/-! ## Part 5 — run-time checks of the hypotheses, and the driver's matching judge (wave 5)
+
+Every hypothesis of `C15_greedy_valid`, `C15_maximum_valid`, `C15_maximum_maximum` that concerns the
+concrete case has an executable form which `Driver/C15.lean` evaluates on every matching case
+(`viewSideCondition` per `graph` line, `matchingSideCondition` per request); a failure is answered
+`SPECFAIL side condition <name> does not hold`.  `directed = false` is read off the `graph` line; on
+directed storage the maximality clause is the open finding D25. -/
+
+/-- run-time check of `IxOk` -/
+theorem C15_ixOk_check (v : View) (h : ixOkB v = true) : IxOk v := ixOkB_sound v h
+
+/-- run-time check of `WellFormed` -/
+theorem C15_wf_check (g : MGraph) (h : wfB g = true) : g.WellFormed := wfB_sound g h
+
+/-- run-time check of `ViewSound` -/
+theorem C15_viewSound_check (v : View) (h : viewSoundB v = true) : ViewSound v := viewSoundB_sound v h
+
+/-- run-time check of `ViewExact` (the core-only copy of the Boolean that the driver links) -/
+theorem C15_viewExact_check (v : View) (h : C15M.viewExactB v = true) : ViewExact v :=
+  viewExactB_sound v h
+
+/-- run-time check of `VacOk` -/
+theorem C15_vacOk_check (v : View) (h : C15M.vacOkB v = true) : C15W2.VacOk v :=
+  C15W2.vacOkB_sound v h
+
+/-- the `graph`-line checks of the driver establish `IxOk`, `ViewSound`, `WellFormed` -/
+theorem C15_graph_line_check (v : View) (h : viewSideCondition v = none) :
+    IxOk v ∧ ViewSound v ∧ v.g.WellFormed := by
+  unfold viewSideCondition at h
+  split at h; · cases h
+  rename_i h1
+  split at h; · cases h
+  split at h; · cases h
+  split at h; · cases h
+  rename_i h4
+  split at h; · cases h
+  rename_i h5
+  simp only [Bool.not_eq_true', Bool.not_eq_false] at h1 h4 h5
+  exact ⟨ixOkB_sound v h4, viewSoundB_sound v h5, wfB_sound v.g h1⟩
+
+/-- the per-request checks of the driver establish `ViewExact` and `VacOk` -/
+theorem C15_matching_request_check (v : View) (h : matchingSideCondition v = none) :
+    ViewExact v ∧ C15W2.VacOk v := by
+  unfold matchingSideCondition at h
+  split at h; · cases h
+  rename_i h1
+  split at h; · cases h
+  rename_i h2
+  simp only [Bool.not_eq_true', Bool.not_eq_false] at h1 h2
+  exact ⟨C15_viewExact_check v h1, C15_vacOk_check v h2⟩
+
+/-- **every matching case the driver judges is inside the scope of the model theorems**: if the
+`graph` line and the request pass the side conditions, then (for every way of comparing edge ids) the
+greedy model and the Gabow model do not fault and return matchings of the graph, and on undirected
+storage the Gabow model's matching is a maximum matching with `len = maxMatchingSize`. -/
+theorem C15_driver_matching (v : View) (mode : Nat) (h1 : viewSideCondition v = none)
+    (h2 : matchingSideCondition v = none) :
+    (greedyInner v).fault = false ∧ IsMatching v.g (pairsOf (mateTable v (greedyInner v))) ∧
+    (maximumMatching v mode).fault = false ∧ MWF v (maximumMatching v mode) ∧
+    IsMatching v.g (pairsOf (mateTable v (maximumMatching v mode))) ∧
+    (v.g.directed = false →
+      IsMaximumMatching v.g (pairsOf (mateTable v (maximumMatching v mode))) ∧
+      (maximumMatching v mode).len = maxMatchingSize v.g) := by
+  obtain ⟨hix, hs, hwf⟩ := C15_graph_line_check v h1
+  obtain ⟨hex, hvac⟩ := C15_matching_request_check v h2
+  have hg := C15_greedy_valid v hix hwf hs
+  have hm := C15_maximum_valid v mode hix hwf hex hvac
+  exact ⟨hg.1, hg.2.2.2, hm.1, hm.2.1, mateValid_isMatching _ _ hm.2.2,
+    fun hund => ⟨C15_maximum_maximum v mode hix hwf hex hvac hund,
+      C15_maximum_len_eq_max v mode hix hwf hex hvac hund⟩⟩
+
+/-- non-vacuity: both sets of side conditions hold for the example views (vacancy; blossom) -/
+example : viewSideCondition exampleView = none ∧ matchingSideCondition exampleView = none ∧
+    viewSideCondition blossomView = none ∧ matchingSideCondition blossomView = none := by decide
+
+/-- the side conditions can fail: the stale-index view is rejected by `vacOk` -/
+example : (matchingSideCondition staleIxView).isSome = true := by decide
+
+/-! ### the accessor judge -/
+
+/-- **the accessor judge is sound**: an accepted observation has every accessor equal to the
+documented function of `mate` (`AccessorsAgree`: `mate` has entries for nodes of the graph only, `len()`
+= number of matched pairs, `edges()` = the matched pairs each once, `nodes()` and `contains_node` = the
+matched nodes each once, `contains_edge` = the entries of `mate`, `is_perfect()` iff every node is
+matched, `is_empty()` iff `len() = 0`, no probe with a non-existent id answered as matched). -/
+theorem C15_judgeAccessors_sound (g : MGraph) (o : MObs) (h : judgeAccessors g o = none) :
+    C15W5A.AccessorsAgree g o :=
+  (C15W5A.judgeAccessors_iff g o).mp h
+
+/-- **the accessor judge is complete**: no false alarm -/
+theorem C15_judgeAccessors_complete (g : MGraph) (o : MObs) (h : C15W5A.AccessorsAgree g o) :
+    judgeAccessors g o = none :=
+  (C15W5A.judgeAccessors_iff g o).mpr h
+
+/-- **"len/edges/nodes/contains_*/is_perfect agree with `mate`"** for every answer that `checkMate` and
+`judgeAccessors` accept, clause by clause in terms of membership in the observed `mate` table. -/
+theorem C15_accessors_judged (g : MGraph) (o : MObs) (hwf : wfB g = true)
+    (hc : checkMate g o.mate = true) (h : judgeAccessors g o = none) :
+    (∀ a, a ∈ o.nodes ↔ ∃ b, (a, b) ∈ o.mate) ∧ o.nodes.Nodup ∧
+    (∀ a, a ∈ o.cn ↔ ∃ b, (a, b) ∈ o.mate) ∧
+    (∀ a b, (a, b) ∈ o.ce ↔ (a, b) ∈ o.mate) ∧
+    (∀ a b, (a, b) ∈ o.edges → (a, b) ∈ o.mate) ∧
+    (∀ a b, (a, b) ∈ o.mate → (a, b) ∈ o.edges ∨ (b, a) ∈ o.edges) ∧
+    o.edges.length = o.len ∧ 2 * o.len = o.nodes.length ∧
+    (o.perfect = true ↔ ∀ a ∈ g.nodes, ∃ b, (a, b) ∈ o.mate) ∧
+    (o.empty = true ↔ o.mate = []) :=
+  C15W5A.accessors_readable g o (wfB_sound g hwf).1 (checkMate_sound g o.mate hc)
+    (C15_judgeAccessors_sound g o h)
+
+/-- an observation of the two-pair matching of `exampleView` that the judge accepts, and one with a wrong
+`len()` that it rejects -/
+def exampleObs : MObs :=
+  { mate := [(0, 1), (1, 0), (2, 3), (3, 2)], len := 2, edges := [(0, 1), (2, 3)], nodes := [0, 1, 2, 3],
+    perfect := true, cn := [0, 1, 2, 3], ce := [(0, 1), (1, 0), (2, 3), (3, 2)], empty := false, bad := 0 }
+
+example : checkMate exampleView.g exampleObs.mate = true ∧ judgeAccessors exampleView.g exampleObs = none ∧
+    (judgeAccessors exampleView.g { exampleObs with len := 1 }).isSome = true ∧
+    (judgeAccessors exampleView.g { exampleObs with perfect := false }).isSome = true := by decide
+
+/-! ### the maximality judge -/
+
+/-- **barrier certificate**: whatever the untrusted search `findBarrierFast` proposes, if the proved
+checker accepts it then `M` is a maximum matching of `g` with `maxMatchingSize g` pairs — for graphs
+of any size. -/
+theorem C15_barrierCert_sound (g : MGraph) (M : List (Nat × Nat)) (h : C15M.barrierCertB g M = true) :
+    IsMaximumMatching g M ∧ M.length = maxMatchingSize g := by
+  unfold C15M.barrierCertB at h
+  split at h
+  · exact C15_checkBarrier_sound g M _ h
+  · cases h
+
+/-- **the definitional maximum for graphs of any size**: the number that the proved Gabow model returns
+on the canonical undirected view of `g` (index = position, rows in edge-list order) — computed only
+when the executable side conditions hold for that view — is `maxMatchingSize g`, the size of a maximum
+matching (direction ignored). -/
+theorem C15_canonical_maximum (g : MGraph) (k : Nat) (h : C15M.canonicalMax g = some k) :
+    k = maxMatchingSize g := by
+  unfold C15M.canonicalMax at h
+  simp only at h
+  split at h
+  · rename_i hc
+    split at h
+    · cases h
+    · unfold C15M.gabowChecksB at hc
+      simp only [Bool.and_eq_true] at hc
+      obtain ⟨⟨⟨c1, c2⟩, c3⟩, c4⟩ := hc
+      have := (C15_maximum_maximum_checked (C15M.uview g) 0 c1 c2
+        (by exact c3) (by exact c4) rfl).2.2
+      cases h
+      exact this
+  · cases h
+
+/-- **the canonical run is total**: for every well-formed graph with distinct edge ids the canonical view
+passes all side conditions of the Gabow theorems and the model does not fault, so `canonicalMax`
+answers — with `maxMatchingSize g` (`C15_canonical_maximum`). -/
+theorem C15_canonical_total (g : MGraph) (hwf : wfB g = true) (hids : nodupB (g.edges.map (·.id)) = true) :
+    C15M.canonicalMax g = some (maxMatchingSize g) := by
+  have hc := C15W5C.uview_checks g hwf hids
+  have hc' := hc
+  unfold C15M.gabowChecksB at hc'
+  simp only [Bool.and_eq_true] at hc'
+  obtain ⟨⟨⟨c1, c2⟩, c3⟩, c4⟩ := hc'
+  have hm := C15_maximum_maximum_checked (C15M.uview g) 0 c1 c2 (by exact c3) (by exact c4) rfl
+  have : C15M.canonicalMax g = some (maximumMatching (C15M.uview g) 0).len := by
+    unfold C15M.canonicalMax
+    simp only [hc, if_true, hm.1, Bool.false_eq_true, if_false]
+  rw [this, hm.2.2]
+  rfl
+
+/-- the size judge of the driver (exhaustive search up to `exhaustiveLimit` nodes, the canonical
+Gabow run beyond) only ever answers the definitional maximum -/
+theorem C15_maxSizeJudge_sound (g : MGraph) (k : Nat) (h : C15M.maxSizeJudge g = some k) :
+    k = maxMatchingSize g := by
+  unfold C15M.maxSizeJudge at h
+  split at h
+  · cases h; rfl
+  · exact C15_canonical_maximum g k h
+
+/-- **the maximality judge is sound in both directions**: for a table that `checkMate` accepts,
+`.maximum _` means the pairs form a maximum matching, `.smaller k` means that a maximum matching has
+`k` pairs and the answer has fewer — so it is NOT a maximum matching. -/
+theorem C15_judgeMaximum_sound (g : MGraph) (mate : List (Nat × Nat)) (hc : checkMate g mate = true) :
+    (∀ c, judgeMaximum g mate = .maximum c → IsMaximumMatching g (pairsOf mate)) ∧
+    (∀ k, judgeMaximum g mate = .smaller k →
+      k = maxMatchingSize g ∧ (pairsOf mate).length < k ∧ ¬ IsMaximumMatching g (pairsOf mate)) := by
+  have hM : IsMatching g (pairsOf mate) := (C15_checkMate_sound g mate hc).2.2.2
+  have hle := maxMatchingSize_upper g _ hM
+  unfold judgeMaximum
+  simp only
+  constructor
+  · intro c h
+    split at h
+    · rename_i hcert
+      simp only [Bool.and_eq_true] at hcert
+      exact (C15_barrierCert_sound g _ hcert.1).1
+    · split at h
+      · rename_i k hk
+        have hk' := C15_maxSizeJudge_sound g k hk
+        split at h
+        · rename_i heq
+          have heq' : (pairsOf mate).length = k := by simpa using heq
+          exact C15_maximum_judge_sound g mate hc (by rw [heq', hk'])
+        · cases h
+      · cases h
+  · intro k h
+    split at h
+    · cases h
+    · split at h
+      · rename_i k' hk
+        have hk' := C15_maxSizeJudge_sound g k' hk
+        split at h
+        · cases h
+        · rename_i hne
+          have hne' : (pairsOf mate).length ≠ k' := by simpa using hne
+          cases h
+          refine ⟨hk', by omega, fun hmax => ?_⟩
+          have := C15_maximum_judge_complete g _ hmax
+          omega
+      · cases h
+
+/-- **the maximality judge always decides** on the cases the driver judges: when the `graph` line and
+the request pass their side conditions, `judgeMaximum` never answers `.undecided` (for any table). -/
+theorem C15_judgeMaximum_total (v : View) (h1 : viewSideCondition v = none)
+    (h2 : matchingSideCondition v = none) (mate : List (Nat × Nat)) :
+    judgeMaximum v.g mate ≠ .undecided := by
+  have hwf : wfB v.g = true := by
+    unfold viewSideCondition at h1
+    split at h1; · cases h1
+    rename_i h; simpa using h
+  have hids : nodupB (v.g.edges.map (·.id)) = true := by
+    unfold matchingSideCondition at h2
+    split at h2; · cases h2
+    rename_i h
+    simp only [Bool.not_eq_true', Bool.not_eq_false] at h
+    unfold C15M.viewExactB at h
+    simp only [Bool.and_eq_true] at h
+    exact h.1.1.1.1
+  have hms : C15M.maxSizeJudge v.g = some (maxMatchingSize v.g) := by
+    unfold C15M.maxSizeJudge
+    split
+    · rfl
+    · exact C15_canonical_total v.g hwf hids
+  unfold judgeMaximum
+  simp only [hms]
+  split
+  · intro h; cases h
+  · split
+    · intro h; cases h
+    · intro h; cases h
+
+/-- **the driver's complete verdict on a `maximum_matching` answer**: if `judgeMatching … true` accepts,
+then the observed `mate` is symmetric, nobody is matched twice, every pair is joined by a non-loop edge,
+the pairs form a MAXIMUM matching of the graph, and every accessor agrees with `mate`. -/
+theorem C15_judgeMatching_sound (g : MGraph) (o : MObs) (maxReq : Bool)
+    (h : judgeMatching g o maxReq = .inr none) :
+    MateValid g o.mate ∧ IsMatching g (pairsOf o.mate) ∧ C15W5A.AccessorsAgree g o ∧
+    (maxReq = true → IsMaximumMatching g (pairsOf o.mate)) := by
+  unfold judgeMatching at h
+  split at h; · cases h
+  rename_i hc
+  simp only [Bool.not_eq_true', Bool.not_eq_false] at hc
+  split at h
+  · cases h
+  · rename_i ha
+    refine ⟨checkMate_sound g o.mate hc, (C15_checkMate_sound g o.mate hc).2.2.2,
+      C15_judgeAccessors_sound g o ha, fun hm => ?_⟩
+    subst hm
+    simp only [if_true] at h
+    split at h
+    · rename_i c hj
+      exact (C15_judgeMaximum_sound g o.mate hc).1 c hj
+    · cases h
+    · cases h
+
+/-- a `Sum.inr (some k)` verdict means: valid, but not maximum (this is what the D25 classifier and the
+`SPECFAIL maximum: …` message report) -/
+theorem C15_judgeMatching_smaller (g : MGraph) (o : MObs) (k : Nat)
+    (h : judgeMatching g o true = .inr (some k)) :
+    IsMatching g (pairsOf o.mate) ∧ k = maxMatchingSize g ∧ (pairsOf o.mate).length < k ∧
+    ¬ IsMaximumMatching g (pairsOf o.mate) := by
+  unfold judgeMatching at h
+  split at h; · cases h
+  rename_i hc
+  simp only [Bool.not_eq_true', Bool.not_eq_false] at hc
+  split at h
+  · cases h
+  · simp only [if_true] at h
+    split at h
+    · cases h
+    · rename_i k' hj
+      have : k' = k := by
+        injection h with h'
+        injection h'
+      subst this
+      exact ⟨(C15_checkMate_sound g o.mate hc).2.2.2, (C15_judgeMaximum_sound g o.mate hc).2 k' hj⟩
+    · cases h
+
+/-- non-vacuity of the composed judge: the example observation is accepted as a maximum matching; the
+answer of the D25 witness (one pair, valid) gets the verdict "valid, but a maximum matching has 2 pairs" -/
+example : judgeMatching exampleView.g exampleObs true = .inr none ∧
+    judgeMatching d25View.g
+      { mate := [(0, 2), (2, 0)], len := 1, edges := [(0, 2)], nodes := [0, 2], perfect := false, cn := [0, 2],
+        ce := [(0, 2), (2, 0)], empty := false, bad := 0 } true = .inr (some 2) := by decide +kernel
+
+/-- a 22-node graph (beyond the exhaustive limit): two pentagons with pendant nodes, a path and a star;
+the size judge runs the Gabow model on the canonical view -/
+def bigGraph : MGraph :=
+  { directed := true, nodes := List.range 22,
+    edges := ([(0, 1), (1, 2), (2, 3), (3, 4), (4, 0), (0, 5), (5, 6), (6, 7), (7, 8), (8, 9), (9, 5), (2, 10),
+      (10, 11), (11, 12), (12, 13), (14, 13), (14, 15), (14, 16), (14, 17), (18, 19), (19, 20), (20, 18),
+      (20, 21)] : List (Nat × Nat)).zipIdx.map fun (p, i) => ⟨i, p.1, p.2, 1⟩ }
+
+def bigMatching : List (Nat × Nat) :=
+  [(1, 2), (3, 4), (0, 5), (6, 7), (8, 9), (10, 11), (12, 13), (14, 15), (18, 19), (20, 21)]
+
+/-- the `mate` table of a list of pairs -/
+def tableOf (M : List (Nat × Nat)) : List (Nat × Nat) := M ++ M.map Prod.swap
+
+/-- non-vacuity of the judges beyond the exhaustive limit: the canonical run answers 10; a maximum
+matching gets the barrier certificate `{14}` and the verdict `.maximum true`, a smaller one `.smaller 10` -/
+example : C15M.canonicalMax bigGraph = some 10 ∧
+    C15M.findBarrierFast bigGraph bigMatching = some [14] ∧
+    C15M.barrierCertB bigGraph bigMatching = true ∧
+    C15M.barrierCertB bigGraph (bigMatching.drop 1) = false ∧
+    judgeMaximum bigGraph (tableOf bigMatching) = .maximum true ∧
+    judgeMaximum bigGraph (tableOf (bigMatching.drop 1)) = .smaller 10 := by
+  decide +kernel
+
 /-! ## Part 2b — the Edmonds–Karp model is a maximum-flow algorithm (all views, integer capacities) -/
 
 /-- the driver's per-case checks establish the hypotheses of the flow model theorems -/
@@ -624,5 +960,66 @@ def clrsView : View :=
 
 example : C15F.flowViewB clrsView = true ∧ wfB clrsView.g = true ∧ C15F.capsNonnegB clrsView.g = true ∧
     (C15F.fordFulkerson clrsView 0 5).maxFlow = 23 := by decide +kernel
+
+/-! ## Part 2c — bounded capacity types (wave 5, `Proofs/C15W5FlowB.lean`) -/
+
+open PetgraphModel.C15FB in
+/-- **bounded capacity types.**  `fordFulkersonG o` is `ford_fulkerson` over partial arithmetic `o`
+(`none` = an operation left the range of the type; the operations are `capacity - flow`, `flow - delta`,
+`flow + delta`, `max_flow + path_flow`).  If `o` is exact on results in `0..M` (`Agrees`: the
+overflow-checked and the wrapping arithmetic of an unsigned type with maximum `M`, `f64`/`f32` on
+integers up to `2^53`/`2^24`), every capacity lies in `0..M`, and the capacity of SOME `s`-`t` cut is at
+most `M`, then no operation leaves the range and the run returns exactly what the exact-integer model
+returns — a feasible maximum flow with the capacity of a minimum cut as its value
+(`C15_flow_feasible`, `C15_flow_max`).  All views, all `s ≠ t`. -/
+theorem C15_bounded_capacities (o : Ops) (M : Int) (ho : Agrees o M) (v : View) (hv : FlowView v)
+    (hwf : v.g.WellFormed) (hw : ∀ e ∈ v.g.edges, 0 ≤ e.w ∧ e.w ≤ M) (s t : Nat) (hne : s ≠ t)
+    (S : List Nat) (hS : IsCut s t S) (hcap : cutCap v.g S ≤ M) :
+    fordFulkersonG o v s t = some (C15F.fordFulkerson v s t) :=
+  fordFulkersonG_eq ho v hv hwf.2 hw s t hne S hS hcap
+
+/-- run-time check of the range hypothesis of `C15_bounded_capacities` (with the cut `{s}`: the sum of
+the capacities out of the source fits the type) -/
+theorem C15_capsFit_check (M : Int) (g : MGraph) (s : Nat) (h : capsFitB M g s = true) :
+    (∀ e ∈ g.edges, 0 ≤ e.w ∧ e.w ≤ M) ∧ cutCap g [s] ≤ M :=
+  C15FB.capsFitB_sound M g s h
+
+open PetgraphModel.C15FB in
+/-- **every flow case the driver judges is inside the proved range**: from the Boolean checks of the
+driver (`flowViewB`, `wfB`, `capsFitB M` with `M` the exact range of the request's capacity type) the
+overflow-checked run (debug build) does not abort, the wrapping run (release build) computes the same,
+and both are the exact-integer model's answer, which is a feasible maximum flow. -/
+theorem C15_driver_flow (v : View) (M : Int) (s t : Nat) (h1 : C15F.flowViewB v = true)
+    (h2 : wfB v.g = true) (h3 : capsFitB M v.g s = true) (hne : s ≠ t) :
+    fordFulkersonG (opsB M) v s t = some (C15F.fordFulkerson v s t) ∧
+    fordFulkersonG (opsW M) v s t = some (C15F.fordFulkerson v s t) ∧
+    (C15F.fordFulkerson v s t).fault = false ∧
+    Feasible v.g s t (C15F.getFlow (C15F.fordFulkerson v s t).flows) ∧
+    (∀ f' : Nat → Int, Feasible v.g s t f' → excess v.g f' s ≤ (C15F.fordFulkerson v s t).maxFlow) := by
+  obtain ⟨hw, hcap⟩ := C15_capsFit_check M v.g s h3
+  have hv := flowViewB_sound v h1
+  have hwf := wfB_sound v.g h2
+  have hcut : IsCut s t [s] := ⟨by simp, by simpa using fun h => hne h.symm⟩
+  have hw0 : ∀ e ∈ v.g.edges, 0 ≤ e.w := fun e he => (hw e he).1
+  exact ⟨C15_bounded_capacities _ M (agrees_B M) v hv hwf hw s t hne [s] hcut hcap,
+    C15_bounded_capacities _ M (agrees_W M) v hv hwf hw s t hne [s] hcut hcap,
+    (C15_flow_feasible v hv hwf hw0 s t hne).1, (C15_flow_feasible v hv hwf hw0 s t hne).2.1,
+    (C15_flow_max v hv hwf hw0 s t hne).2.2⟩
+
+/-- **the bound on a cut cannot be dropped** (two parallel edges of capacity 2 in a type with maximum
+3): all capacities fit, the maximum flow 4 does not; the overflow-checked run aborts and the wrapping run
+returns the value 0.  (For the Rust code: `ford_fulkerson` on `u8` weights `200, 200` panics in a debug
+build and returns `144` in a release build — inherent to returning the value in the weight type.) -/
+theorem C15_bounded_needs_cut_bound :
+    C15F.flowViewB C15FB.twoPipes = true ∧ (∀ e ∈ C15FB.twoPipes.g.edges, 0 ≤ e.w ∧ e.w ≤ 3) ∧
+    (C15F.fordFulkerson C15FB.twoPipes 0 1).maxFlow = 4 ∧
+    C15FB.fordFulkersonG (C15FB.opsB 3) C15FB.twoPipes 0 1 = none ∧
+    (C15FB.fordFulkersonG (C15FB.opsW 3) C15FB.twoPipes 0 1).map (·.maxFlow) = some 0 :=
+  C15FB.needs_cut_bound
+
+/-- non-vacuity: the CLRS network in `u8` (`M = 255`): the range check passes, and the checked run over
+`u8` arithmetic returns the flow of value 23 -/
+example : capsFitB 255 clrsView.g 0 = true ∧
+    (C15FB.fordFulkersonG (C15FB.opsB 255) clrsView 0 5).map (·.maxFlow) = some 23 := by decide +kernel
 
 end PetgraphModel.C15T
